@@ -79,7 +79,7 @@ func runC03(cs CaseSpec) *CaseResult {
 	d := genDag(rng, cs.Seed*7919+int64(cs.Index), sp)
 	if shape := cs.Str("shape", ""); shape != "" {
 		if shape == "long-election" {
-			shape = []string{"long-election", "long-election-1", "long-election-2"}[cs.Index%3]
+			shape = []string{"long-election", "long-election-1", "long-election-2", "long-election-3"}[cs.Index%4]
 		}
 		sp.N = shapeCreators[shape]
 		d = genDagFromShape(rng, cs.Seed*7919+int64(cs.Index), shapeCorpus[shape], sp.N)
